@@ -96,6 +96,7 @@ static bool c_pop_right(struct container *c, T *v) { return seq_pop(c, v, END_HI
 static bool c_empty(struct container *c) { SAT_INC(g_query_calls); g_result = (c->lo == c->hi); return g_result; }
 /* moodycamel ConcurrentQueue, single threaded */
 static bool c_enqueue(struct container *c, T v) { return seq_push(c, v, END_HI); }
+static bool c_try_enqueue(struct container *c, T v) { if (nondet_bool()) return false; /* pre-allocated blocks used up */ return seq_push(c, v, END_HI); }
 static bool c_try_dequeue(struct container *c, T *v) { return seq_pop(c, v, END_LO); }
 static size_t c_size_approx(struct container *c) { SAT_INC(g_query_calls); return (size_t) (c->hi - c->lo); }
 /* container constructors: container_type(std::size_t) and container_type() */
